@@ -244,7 +244,7 @@ func (m *runtimeContextManager) RequireBytes(n int) (mem uint64) {
 func (m *runtimeContextManager) ReleaseMem(memAmount uint64) {
 	// TODO: think about what to do when memory is released when unwinding from
 	// a quota exceeded error
-	if m.hardLimits.Memory > 0 {
+	if m.trackMem {
 		if memAmount <= m.usedResources.Memory {
 			m.usedResources.Memory -= memAmount
 		} else {
